@@ -39,7 +39,7 @@ fn observe_parser(k: K, v: u32) -> Result<(Vec<usize>, Vec<String>), String> {
     let mut accepted = vec![];
     let mut kinds: Option<Vec<String>> = None;
     for fill in 0..=20usize {
-        let mut w = gram::header(0x0001_0600, 0, 100);
+        let mut w = gram::header_varied(((decls::kind_class(k) as u64) << 40) ^ ((v as u64) << 3) ^ prefix.len() as u64, 100);
         let wc = 1 + prefix.len() + 1 + fill;
         w.push(((wc as u32) << 16) | opcode as u32);
         w.extend(&prefix);
